@@ -359,9 +359,37 @@ func (vc *VC) ScriptWith(o *Obligation, style string, extra []string) string {
 			defs = append(defs, g)
 		}
 	}
+	// `opt opaque.G f`: in the queries of proof group G (and its sub-groups) the
+	// spec function f is only declared, not defined (hiding a definition can lose
+	// proofs, never admit wrong ones)
+	hidden := map[string]bool{}
+	if vc.ct != nil {
+		og := obligationGroup(o.Name)
+		for k, v := range vc.ct.Opts {
+			if strings.HasPrefix(k, "opaque.") && og != "" {
+				hg := strings.TrimPrefix(k, "opaque.")
+				if og == hg || strings.HasPrefix(og, hg+".") {
+					for _, f := range strings.Fields(v) {
+						hidden["spec."+f] = true
+					}
+				}
+			}
+		}
+	}
 	for _, scc := range vc.sccOrder(defs) {
 		if len(scc) == 1 && !scc[0].Rec {
 			g := scc[0]
+			if hidden[g.Name] {
+				var sorts []string
+				for _, p := range g.Params {
+					p = strings.TrimSuffix(strings.TrimPrefix(p, "("), ")")
+					if i := strings.Index(p, " "); i >= 0 {
+						sorts = append(sorts, p[i+1:])
+					}
+				}
+				fmt.Fprintf(&b, "(declare-fun %s (%s) %s)\n", g.Name, strings.Join(sorts, " "), g.Ret)
+				continue
+			}
 			fmt.Fprintf(&b, "(define-fun %s (%s) %s %s)\n", g.Name, strings.Join(g.Params, " "), g.Ret, g.Body)
 			continue
 		}
